@@ -976,6 +976,52 @@ func C10(c *core.Ctx) {
 		c.Floor("R10.16", "received link-layer headers copied to the delivered packet", nHdr, 2)
 	}
 
+	// ---- R10.17 the payload room that the packet is divided by is positive: every division
+	// (and remainder) in the send path whose divisor is not a constant is reachable only on an
+	// edge asserting divisor > 0 — room of exactly 0 (a small MTU that management accepts, a
+	// PIT token that uses up what the headers left) is a division by zero in the face's send
+	// goroutine, which takes the daemon down
+	if snd := p.Func("fw/face", "", "sendPacket"); snd != nil {
+		nDiv := 0
+		core.InstrsDeep(snd, func(in ssa.Instruction) {
+			bo, ok := in.(*ssa.BinOp)
+			if !ok || (bo.Op != token.QUO && bo.Op != token.REM) {
+				return
+			}
+			if _, isC := core.ConstInt(bo.Y); isC {
+				return
+			}
+			if bt, isB := bo.Y.Type().Underlying().(*types.Basic); !isB || bt.Info()&types.IsInteger == 0 {
+				return
+			}
+			nDiv++
+			d := bo.Y
+			positive := &core.Atom{Name: "divisor > 0", Match: func(cond ssa.Value) (int, int) {
+				op, x, y, okC := core.Cmp(cond)
+				if !okC {
+					return 0, 0
+				}
+				k, isC := core.ConstInt(y)
+				if !isC || !(core.StripConv(x) == core.StripConv(d) || core.Same(x, d)) {
+					return 0, 0
+				}
+				switch {
+				case op == token.LEQ && k >= 0, op == token.LSS && k >= 1, op == token.EQL && k == 0:
+					if op == token.EQL {
+						return 0, 0 // == 0 excludes zero on the false edge only together with a sign test
+					}
+					return -1, 1
+				case op == token.GTR && k >= 0, op == token.GEQ && k >= 1:
+					return 1, -1
+				}
+				return 0, 0
+			}}
+			g := core.GateDeep(snd, []ssa.Instruction{in}, pos(positive))
+			c.Decide(g.OK && g.PerLit[0] > 0, "R10.17", fmt.Sprintf("divisor-positive:%s#%d", core.FuncName(in.Parent()), nDiv), c.Pos(in), "the division is reachable only behind a test that the divisor is positive", core.FuncName(in.Parent())+" divides by "+describeValue(d)+" on a path that has not established that it is positive (a test that admits 0 is not enough): with room for exactly 0 payload bytes — an accepted small MTU and a PIT token that uses up the rest — the send goroutine panics with a division by zero and the forwarder dies")
+		})
+		c.Floor("R10.17", "divisions by a computed room in the send path", nDiv, 1)
+	}
+
 	// ---- R10.9 the number of fragments is not "quotient + 1": len/size + 1 pieces of at
 	// most size bytes include an EMPTY last piece whenever size divides len — the receiver
 	// drops an empty fragment as IDLE and never completes the message. (Only this known-wrong
